@@ -26,7 +26,7 @@ EXPLANATION = (
     "container hands keys back and reports no cursor instead of raising; (8) the dict-like Frame.contents does not define __len__/__iter__ through the Mapping mixin methods that are themselves derived from them."
     " Added after seed round 3: (11) EXHAUST - an if/else on the key's command whose else-arm stands for the other command is reached only after the key was restricted to those two commands (only a `self.selectable()` test may bypass the restriction: the calling convention); (12) CommandMap.copy() gives the copy its own dict."
     " Round 4: (13) OPTCALL - get_cursor_coords / get_pref_col / move_cursor_to_coords / mouse_event are called on a child only under hasattr(child, method); (14) GridFlow: every store of a row's focus_position sets the latch the default-focus test reads; (15) an index is clamped to len-1 under `index >= len`."
-    " Round-4 triage: (16) NONE-SENTINEL - optional parts are tested with `is (not) None`, never by truthiness; (3, extended) every writer of Frame.focus_part that can store 'header' / 'footer' tests that the part exists; (17) the position ListBox.set_focus() parks in set_focus_pending is handed back to the walker only under an IndexError/KeyError handler."
+    " Round-4 triage: (16) NONE-SENTINEL - optional parts are tested with `is (not) None`, never by truthiness; (3, extended) every writer of Frame.focus_part that can store 'header' / 'footer' tests that the part exists; (17) the position ListBox.set_focus() parks in set_focus_pending is handed back to the walker only under an IndexError/KeyError handler; (18) every attribute the synthetic contents reader of Overlay / Frame reports is stored by the contents writer."
 )
 NOT_DECIDED = "Validity of the index after arbitrary edit histories (C16's arithmetic), the choice of the arrow-key target, which widgets are rendered with focus=True, ListBox focus bookkeeping."
 ASSUMPTIONS = []
@@ -599,6 +599,39 @@ def rule_stale_position(ctx: Ctx) -> RuleResult:
     return rr
 
 
+def rule_contents_rw(ctx: Ctx) -> RuleResult:
+    """Containers with a synthetic `contents` object (Overlay, Frame) implement it with a reader
+    `_contents__getitem__` and a writer `_contents__setitem__`.  Whatever state the reader reports for a position
+    the writer has to store: an attribute that is read but never written makes `contents[k] = (w, options)`
+    silently drop that part of the pair (the focus widget read back is not the one written)."""
+    p = ctx.p
+    rr = RuleResult("SIB", "C08.18", "every attribute the synthetic contents reader reports is stored by the contents writer", floor=2)
+    for C in p.classes.values():
+        g, w = C.methods.get("_contents__getitem__"), C.methods.get("_contents__setitem__")
+        if g is None or w is None:
+            continue
+
+        def attrs(fi, store):
+            out = set()
+            for n in fi.own_nodes():
+                if isinstance(n, ast.Attribute) and isinstance(n.value, ast.Name) and n.value.id == fi.self_name and isinstance(n.ctx, ast.Store if store else ast.Load) and not n.attr.lstrip("_").isupper():
+                    out.add(n.attr.lstrip("_"))
+            return out
+
+        # only what is part of a returned value counts as reported
+        reported = set()
+        for n in g.own_nodes():
+            if isinstance(n, ast.Return) and n.value is not None:
+                for a in ast.walk(n.value):
+                    if isinstance(a, ast.Attribute) and isinstance(a.value, ast.Name) and a.value.id == g.self_name and not a.attr.lstrip("_").isupper():
+                        reported.add(a.attr.lstrip("_"))
+        written = attrs(w, True)
+        rr.inst(short(C) if hasattr(C, "qualname") else C.name, True, {"class": C.name, "reported": sorted(reported), "written": sorted(written)})
+        for a in sorted(reported - written):
+            rr.add(finding("SIB", w, w.node, f"{C.name}.contents reports `{a}` for a position (in _contents__getitem__) but _contents__setitem__ never stores it: `contents[k] = (widget, options)` silently keeps the old `{a}`", construct=f"{C.name}: contents writer never stores {a}"))
+    return rr
+
+
 def run(ctx: Ctx):
     p = ctx.p
     from ..rules import optcall, sentinel
@@ -626,6 +659,7 @@ def run(ctx: Ctx):
         rule_index_clamp(ctx),
         sentinel.run_sentinel(p, "C08.16", ("urwid.widget",), floor=10),
         rule_stale_position(ctx),
+        rule_contents_rw(ctx),
         optcall.run_optcall(p, "C08.13", ("urwid.widget",), floor=35),
     ]
 
@@ -635,6 +669,8 @@ _C = "urwid/widget/columns.py"
 _G = "urwid/widget/grid_flow.py"
 _F = "urwid/widget/frame.py"
 MUTANTS = [
+    Mut("overlay-contents-drops-top-widget", "urwid/widget/overlay.py", "Overlay._contents__setitem__", "            self.top_w = value_w\n", "", "SIB|widget.overlay.Overlay._contents__setitem__"),
+    Mut("overlay-contents-drops-min-height", "urwid/widget/overlay.py", "Overlay._contents__setitem__", "            self.min_height = min_height\n", "", "SIB|widget.overlay.Overlay._contents__setitem__"),
     Mut("listbox-restores-stale-position-unguarded", "urwid/widget/listbox.py", "ListBox._set_focus_complete", "        try:\n            self._body.set_focus(focus_pos)\n        except (IndexError, KeyError):\n            # the old focus position no longer exists: there is nothing to place the new focus relative to\n            focus_offset = focus_rows = 0\n            fill_above = fill_below = ()\n        else:\n", "        self._body.set_focus(focus_pos)\n        if True:\n", "EXC|widget.listbox.ListBox._set_focus_complete"),
     Mut("frame-ctor-focuses-absent-part", _F, "Frame.__init__", "        if (self.focus_part == \"header\" and header is None) or (self.focus_part == \"footer\" and footer is None):\n            # an absent part cannot have the focus (as when the part is removed later)\n            self.focus_part = \"body\"\n", "", "WRITER|widget.frame.Frame.__init__"),
     Mut("frame-keys-by-truthiness", "urwid/widget/frame.py", "Frame._contents_keys", "        if self._header is not None:\n            keys.append(\"header\")", "        if self._header:\n            keys.append(\"header\")", "SENTINEL|widget.frame.Frame._contents_keys"),
